@@ -11,6 +11,7 @@ import (
 	"net/http"
 	"os"
 	"strings"
+	"sync"
 	"testing"
 	"time"
 
@@ -182,7 +183,21 @@ func TestLinkReal(t *testing.T) {
 	k := 0
 	// an installed (empty) ledger makes the library overwrite every body buffer at its last Free:
 	// anybody still reading a released message sees garbage instead of plausible data
-	mangos.VerifSetMsgLedger(func(mangos.VerifMsgEvent) {})
+	// The ledger also keeps the count of references of every message the library or the driver allocates
+	// (Msg.tla RefPositive on the real transports, ws and inproc included, which have their own message handling):
+	// a release or a Clone of a message that is not live is reported in the scenario's trace (`lmsgbad`), which
+	// TraceLink cannot explain.
+	var badMu sync.Mutex
+	var bad []string
+	mangos.VerifSetMsgLedger(func(e mangos.VerifMsgEvent) {
+		if (e.Op == "free" || e.Op == "clone") && e.Ref <= 0 {
+			badMu.Lock()
+			if len(bad) < 8 {
+				bad = append(bad, fmt.Sprintf("%s of a message that is not live (serial %d, count %d, len %d)", e.Op, e.Serial, e.Ref, e.Len))
+			}
+			badMu.Unlock()
+		}
+	})
 	defer mangos.VerifSetMsgLedger(nil)
 	for ti, tr := range realTrans() {
 		for pi, lp := range linkPats() {
@@ -390,6 +405,13 @@ func TestLinkReal(t *testing.T) {
 					}
 				}
 			}()
+			time.Sleep(5 * time.Millisecond) // the closed sockets' goroutines release what they still hold
+			badMu.Lock()
+			for _, w := range bad {
+				r.Emit("lmsgbad", "what", w)
+			}
+			bad = nil
+			badMu.Unlock()
 			out.Add(fmt.Sprintf("link-%s-%s", tr.name, lp.name), rec.Ev{"tran": tr.name, "pat": lp.name},
 				tr.name+" "+lp.name, sim.Result{Lines: r.Lines(), Status: status, Detail: detail})
 		}
